@@ -488,7 +488,8 @@ fn check_wrap_widths(c: &Case, written: &[u8]) -> Result<(), Stop> {
     let mut want: Vec<Vec<usize>> = Vec::new();
     for r in &c.recs {
         let ws: Vec<usize> = c.wrap.iter().cloned().collect();
-        want.push(wrap_cyclic(&r.seq, &ws).iter().map(|l| l.len()).collect());
+        // (an empty sequence: one empty line without line wrap, no sequence line at all with it)
+        want.push(if r.seq.is_empty() && c.wrap.is_some() { Vec::new() } else { wrap_cyclic(&r.seq, &ws).iter().map(|l| l.len()).collect() });
     }
     ensure!(
         lens == want,
@@ -511,7 +512,8 @@ fn sched_of(io: &Io) -> &[u32] {
 pub fn check(c: &Case) -> R {
     ensure!(!c.recs.is_empty() && !c.ios.is_empty(), "harness: empty record list / io list generated");
     for r in &c.recs {
-        ensure!(!r.id.is_empty() && !r.seq.is_empty() && (c.kind == Kind::Fasta || r.seq.len() == r.qual.len()), "harness: invalid record generated {:?}", r);
+        // (a FASTA record without sequence is valid - check() accepts it - and round-trips; a FASTQ record needs a base)
+        ensure!(!r.id.is_empty() && (c.kind == Kind::Fasta || (!r.seq.is_empty() && r.seq.len() == r.qual.len())), "harness: invalid record generated {:?}", r);
     }
     let kind = c.kind;
     let want = model(kind, &c.recs);
@@ -686,6 +688,8 @@ pub fn check(c: &Case) -> R {
     pass.add_if(c.ios.iter().any(|io| io.path % 4 == 3), "from_bufread");
     pass.add_if(c.recs.iter().any(|r| r.desc.is_some()), "description present");
     pass.add_if(c.recs.iter().any(|r| r.desc.is_none()), "no description");
+    pass.add_if(c.kind == Kind::Fasta && c.recs.iter().any(|r| r.seq.is_empty()), "FASTA record without sequence");
+    pass.add_if(c.kind == Kind::Fasta && c.recs.iter().any(|r| r.seq.is_empty() && r.desc.is_none()), "FASTA record without sequence and without description");
     pass.add_if(c.recs.iter().any(|r| r.desc.as_deref().map_or(false, |d| d.starts_with(' ') || d.starts_with('\t'))), "description starting with a blank");
     pass.add_if(c.recs.iter().any(|r| r.desc.as_deref().map_or(false, |d| d.contains('\t') || d.contains("  "))), "description with tab / double space");
     pass.add_if(c.recs.iter().any(|r| !r.id.is_ascii() || r.desc.as_deref().map_or(false, |d| !d.is_ascii())), "non-ASCII header");
@@ -895,6 +899,18 @@ fn case_strat(kind: Kind) -> BoxedStrategy<Case> {
         proptest::bool::weighted(0.4),
         any::<u32>(),
     )
+        .prop_map(move |(mut recs, wrap, wcap, via_record, ios, layout, cut_layout, cut_seed)| {
+            if kind == Kind::Fasta {
+                // FASTA records without sequence (header line only): about one record in eight
+                for (i, r) in recs.iter_mut().enumerate() {
+                    if (cut_seed >> (8 + 3 * (i % 8))) & 7 == 0 {
+                        r.seq = B(Vec::new());
+                        r.qual = B(Vec::new());
+                    }
+                }
+            }
+            (recs, wrap, wcap, via_record, ios, layout, cut_layout, cut_seed)
+        })
         .prop_map(move |(recs, wrap, wcap, via_record, ios, layout, cut_layout, cut_seed)| Case {
             kind,
             recs,
